@@ -63,6 +63,7 @@ static inline char *str_t__op_index(str_t *s, size_t i)
 static inline str_t *str_t__op_addassign_char(str_t *s, char c)
 { __CPROVER_assert(s->size < s->cap, "model limit: string capacity"); s->data[s->size] = c; s->size = s->size + 1; return s; }
 static inline char *str_t__op_index_unsigned_long(str_t *s, size_t i) { return str_t__op_index(s, i); }
+static inline char *str_t__op_index_size_t(str_t *s, size_t i) { return str_t__op_index(s, i); }
 /* string iterators and the erase(remove_if(begin, end, pred), end) idiom */
 typedef struct { str_t *s; size_t i; } str_t_iter;
 static inline str_t_iter str_t__begin(str_t *s) { str_t_iter r; r.s = s; r.i = 0; return r; }
@@ -132,6 +133,17 @@ static inline void vec_u8__insert(vec_u8 *dst, vec_u8_iter pos, vec_u8_iter firs
   __CPROVER_assert(cnt <= dst->cap - dst->size, "model limit: vector capacity");
 #if defined(VEC_U8_NOCONTENT)
   dst->size = dst->size + cnt;
+#elif defined(VEC_U8_GHOST_INSERT)
+  /* insert as an ASSUMED contract stated for the ghost indices (no copy loop, any range length): the octet at the
+   * arbitrary position ghost_j of the range lands at old size + ghost_j, the octet at the arbitrary position ghost_k
+   * below the old size keeps its value; everything else is arbitrary */
+  { extern size_t ghost_j; size_t osz = dst->size;
+    unsigned char keep = dst->data[ghost_k < osz ? ghost_k : 0];
+    unsigned char moved = first.v->data[ghost_j < cnt ? first.i + ghost_j : first.i];
+    if (cnt > 0) __CPROVER_havoc_object(dst->data);
+    dst->size = osz + cnt;
+    __CPROVER_assume(ghost_k < osz ==> dst->data[ghost_k] == keep);
+    __CPROVER_assume(ghost_j < cnt ==> dst->data[osz + ghost_j] == moved); }
 #elif defined(VEC_U8_ABSTRACT)
   /* abstract contents: the appended octets are arbitrary (over-approximation, sound for safety obligations) */
   if (cnt > 0) __CPROVER_havoc_object(dst->data);
